@@ -28,9 +28,9 @@ def main():
     import pony.orm.dbproviders.sqlite as psqlite
     from pony.orm import dbapiprovider
 
-    state = {'log': [], 'counter': 0, 'parent_pid': os.getpid(), 'pool_connect_calls': 0}
+    state = {'log': [], 'counter': 0, 'parent_pid': os.getpid(), 'pool_connect_calls': 0, 'q': 0}
 
-    def role(pid): return 'P' if pid == state['parent_pid'] else 'C'
+    def role(pid): return None if pid is None else ('P' if pid == state['parent_pid'] else 'C')
     def me(): return role(os.getpid())
 
     class ConnProxy(object):
@@ -52,7 +52,14 @@ def main():
         def create_function(self, *a, **k):
             self._log('use'); return self._real.create_function(*a, **k)
         def close(self):
+            object.__setattr__(self, '_closed', True)
             self._log('close'); return self._real.close()
+        def __del__(self):
+            # the last reference to a connection object goes away: the DB-API connection is closed by its destructor
+            # (this is what forked_connections exists to prevent for inherited connections)
+            try:
+                if not self.__dict__.get('_closed'): self._log('close')
+            except Exception: pass
         def __getattr__(self, n): return getattr(self._real, n)
         def __setattr__(self, n, v): setattr(self._real, n, v)
 
@@ -84,7 +91,9 @@ def main():
             res = None
             try:
                 if op == 'begin': orm.db_session.__enter__()
-                elif op == 'query': res = sorted(orm.select(t.marker for t in T)[:])
+                elif op == 'query':
+                    state['q'] += 1; lim = -state['q']       # a different parameter each time: never answered from the query-result cache
+                    res = sorted(orm.select(t.marker for t in T if t.marker > lim)[:])
                 elif op == 'write':
                     n[0] += 1
                     T(marker=n[0]); orm.flush(); res = n[0]
@@ -107,19 +116,31 @@ def main():
                 'forked': [[list(c._ident), role(p)] for c, p in dbapiprovider.Pool.forked_connections],
                 'counter': core.local.db_context_counter}
 
-    results = []
-    for k, sc in enumerate(payload['scenarios']):
-        path = os.path.join(payload['dbdir'], 'c36-%d-%d.sqlite' % (os.getpid(), k))
-        for suffix in ('', '-journal', '-wal', '-shm'):
-            if os.path.exists(path + suffix): os.remove(path + suffix)
-        del dbapiprovider.Pool.forked_connections[:]
-        state['log'] = []; state['counter'] = 0; state['pool_connect_calls'] = 0
+    path = os.path.join(payload['dbdir'], 'c36-%d.sqlite' % os.getpid())
+    for suffix in ('', '-journal', '-wal', '-shm'):
+        if os.path.exists(path + suffix): os.remove(path + suffix)
+    try:
         db = orm.Database()
         class T(db.Entity):
             marker = orm.Required(int)
         db.bind('sqlite', path, create_db=True)
         db.generate_mapping(create_tables=True)
-        bind_events = list(state['log']); state['log'] = []
+        with orm.db_session: T(marker=1)
+        with orm.db_session: db.execute('delete from T')
+    except Exception as e:
+        # the provider cannot even run two plain sessions: report it for every scenario instead of crashing the harness
+        msg = '%s: %s' % (type(e).__name__, e)
+        sys.stdout.write('\n@@JSON@@' + json.dumps({'results': [{'scenario': sc, 'setup_error': msg} for sc in payload['scenarios']], 'info': {}}))
+        return
+    bind_events = list(state['log'])
+
+    results = []
+    for k, sc in enumerate(payload['scenarios']):
+        # fresh bookkeeping: no pooled connection, nothing parked, serial 0, empty table
+        with orm.db_session: db.execute('delete from T')
+        db.disconnect()
+        del dbapiprovider.Pool.forked_connections[:]
+        state['log'] = []; state['counter'] = 0; state['pool_connect_calls'] = 0
         out = {'scenario': sc}
         out['before'] = run_ops(db, T, sc['before'], 100)
         out['at_fork'] = bookkeeping(db)
@@ -193,13 +214,14 @@ def main():
             db.disconnect()
         except Exception:
             pass
-        out['bind_events'] = bind_events
         results.append(out)
-        for suffix in ('', '-journal', '-wal', '-shm'):
-            try: os.remove(path + suffix)
-            except OSError: pass
+    try: db.disconnect()
+    except Exception: pass
+    for suffix in ('', '-journal', '-wal', '-shm'):
+        try: os.remove(path + suffix)
+        except OSError: pass
 
-    sys.stdout.write('\n@@JSON@@' + json.dumps({'results': results, 'info': {'sqlite': sqlite3.sqlite_version}}))
+    sys.stdout.write('\n@@JSON@@' + json.dumps({'results': results, 'info': {'sqlite': sqlite3.sqlite_version, 'bind_events': len(bind_events)}}))
 
 
 if __name__ == '__main__':
